@@ -11,6 +11,10 @@ pub(crate) enum CodeAddress {
     InstrInFunction { instr_id: InstrLocId },
     /// The address is one byte before the instruction.
     InstrEdge { instr_id: InstrLocId },
+    /// The address is the start of a function's body (the byte after the
+    /// entry's size field), which is where subprogram ranges and the first
+    /// line row of a function usually point.
+    FunctionBodyStart { id: Id<Function> },
     /// The address is within a function, but does not match any instruction.
     OffsetInFunction { id: Id<Function>, offset: usize },
     /// The address is boundary of functions. Equals to OffsetInFunction with offset(section size).
@@ -54,6 +58,26 @@ impl CodeAddressGenerator {
         address: usize,
         search_preference: AddressSearchPreference,
     ) -> CodeAddress {
+        // The start of a function body stays the start of that function's
+        // body, whatever happens to the instructions inside (instructions may
+        // be inserted in front of the first original one, and the size field
+        // in front of the body may change its length).
+        let containing = self.address_convert_table.binary_search_by(|range| {
+            if range.0.end <= address {
+                Ordering::Less
+            } else if address < range.0.start {
+                Ordering::Greater
+            } else {
+                Ordering::Equal
+            }
+        });
+        if let Ok(i) = containing {
+            let entry = &self.address_convert_table[i];
+            if address == entry.0.start + size_field_len(&entry.0) {
+                return CodeAddress::FunctionBodyStart { id: entry.1 };
+            }
+        }
+
         match self
             .instrument_address_convert_table
             .binary_search_by_key(&address, |i| i.0)
@@ -119,6 +143,23 @@ impl CodeAddressGenerator {
     }
 }
 
+/// Length of the LEB128 size field at the start of a code section entry, given
+/// the range of the whole entry (size field included).
+fn size_field_len(entry: &Range<usize>) -> usize {
+    let total = entry.end - entry.start;
+    (1..=5usize)
+        .find(|len| {
+            let mut body = total.saturating_sub(*len) >> 7;
+            let mut needed = 1;
+            while body != 0 {
+                needed += 1;
+                body >>= 7;
+            }
+            needed == *len
+        })
+        .unwrap_or(1)
+}
+
 /// Converts CodeAddress to translated code address
 pub(crate) struct CodeAddressConverter<'a> {
     code_transform: &'a CodeTransform,
@@ -148,6 +189,19 @@ impl<'a> CodeAddressConverter<'a> {
                     .binary_search_by_key(&instr_id, |i| i.0)
                 {
                     Ok(id) => Some(self.code_transform.instruction_map[id].1 - 1),
+                    Err(_) => None,
+                }
+            }
+            CodeAddress::FunctionBodyStart { id } => {
+                match self
+                    .code_transform
+                    .function_ranges
+                    .binary_search_by_key(&id, |i| i.0)
+                {
+                    Ok(id) => {
+                        let range = &self.code_transform.function_ranges[id].1;
+                        Some(range.start + size_field_len(range))
+                    }
                     Err(_) => None,
                 }
             }
